@@ -28,7 +28,8 @@
  *
  * output: per step the emitted frames in order, steps separated by " / ", then " | fin" or
  *   " | open" (h2_retire_con() ran or not):
- *     SA | PA | G<last>,<code> | R<sid>,<code> | W<sid>,<inc> | H<sid>,<status>,<es> | D<sid>,<len>,<es>
+ *     SA | PA<8 octets hex> | G<last>,<code> | R<sid>,<code> | W<sid>,<inc> | H<sid>,<status>,<es>:<len>+<len>..
+ *     (payload sizes of the HEADERS/CONTINUATION frames) | D<sid>,<len>,<es> (one DATA frame each)
  *     | F<type>.<flags>.<sid>.<len>  (anything else / malformed: the monitor in c05.py rejects it)
  *   "-" = nothing emitted in the step.
  */
@@ -60,7 +61,7 @@ static struct lshpack_dec g_peer;  /* the client's HPACK decoder (for :status) *
 static int g_peer_ready;
 static int g_undelivered;
 static int g_body_corrupt;         /* a request body octet that is not a DATA payload octet ('d') */
-static buffer *blk; static uint32_t blk_sid; static int blk_es, blk_open;
+static buffer *blk; static uint32_t blk_sid; static int blk_es, blk_open; static char blk_sizes[160];
 
 /* own tokenizer: an octet-wise segmentation has far more than LTV_MAXTOK tokens */
 static char *hl_line; static size_t hl_cap;
@@ -129,6 +130,9 @@ static int hw_capture(request_st *r, connection *con) {
     return CON_STATE_WRITE;
 }
 
+static const char *g_bodyfile;
+static void rm_bodyfile(void) { if (g_bodyfile) unlink(g_bodyfile); }
+
 /* the http_response_loop argument of h2_process_streams() */
 static handler_t producer(request_st *r) {
     size_t body = ERRBODY;
@@ -140,23 +144,53 @@ static handler_t producer(request_st *r) {
         for (size_t i = 0, n = buffer_clen(c->mem) - (size_t)c->offset; i < n; ++i)
             if (p[i] != 'd') g_body_corrupt = 1;
     }
+    int file = 0;
     if (0 == r->http_status) {
-        int status = 500; unsigned long bl = 0;
+        /* "/r/<status>/<bodylen>[/<n>]": body in memory; "/f/...": body is a FILE_CHUNK;
+         * a third number n adds a response field "x-pad" of n octets (large header block) */
+        int status = 500; unsigned long bl = 0, hl = 0;
         const char *t = r->target.ptr;
-        if (t && 0 == strncmp(t, "/r/", 3)) {
+        if (t && (0 == strncmp(t, "/r/", 3) || 0 == strncmp(t, "/f/", 3))) {
             char *e = NULL;
+            file = (t[1] == 'f');
             status = (int)strtol(t + 3, &e, 10);
-            if (e && *e == '/') bl = strtoul(e + 1, NULL, 10);
+            if (e && *e == '/') bl = strtoul(e + 1, &e, 10);
+            if (e && *e == '/') hl = strtoul(e + 1, NULL, 10);
         }
         r->http_status = status;
         body = (size_t)bl;
+        if (hl) {
+            buffer * const v = buffer_init();
+            memset(buffer_extend(v, hl), 'a', hl);
+            http_header_response_set(r, HTTP_HEADER_OTHER, CONST_STR_LEN("x-pad"), BUF_PTR_LEN(v));
+            buffer_free(v);
+        }
     }
     if (body > g_bodycap) {
         g_body = realloc(g_body, body);
         memset(g_body + g_bodycap, 'x', body - g_bodycap);
         g_bodycap = body;
     }
-    if (body) chunkqueue_append_mem(&r->write_queue, g_body, body);
+    if (body && file) {
+        /* a temporary file of 'x' octets, grown on demand; every response gets its own descriptor */
+        static char fn[512]; static size_t fsz;
+        if (!fn[0]) {
+            const char *tmp = getenv("TMPDIR");
+            snprintf(fn, sizeof(fn), "%s/ltvh2body.%d", (tmp && *tmp) ? tmp : "/tmp", (int)getpid());
+            atexit(rm_bodyfile);
+            g_bodyfile = fn;
+        }
+        if (fsz < body) {
+            int wfd = open(fn, O_WRONLY|O_CREAT|O_APPEND, 0600);
+            if (wfd >= 0) { if (write(wfd, g_body + fsz, body - fsz) < 0) {} close(wfd); fsz = body; }
+        }
+        int fd = open(fn, O_RDONLY);
+        static buffer fnb;
+        fnb.ptr = fn; fnb.used = (uint32_t)strlen(fn) + 1; fnb.size = sizeof(fn);
+        if (fd >= 0) chunkqueue_append_file_fd(&r->write_queue, &fnb, fd, 0, (off_t)body);
+        else chunkqueue_append_mem(&r->write_queue, g_body, body);
+    }
+    else if (body) chunkqueue_append_mem(&r->write_queue, g_body, body);
     r->resp_body_finished = 1;
     r->handler_module = NULL;
     return HANDLER_GO_ON;
@@ -404,11 +438,12 @@ static void print_step(int first) {
         if (o + 9 + l > tot) break;
         const unsigned char *pl = u + o + 9;
         #define U32(p) (((uint32_t)(p)[0] << 24) | ((uint32_t)(p)[1] << 16) | ((uint32_t)(p)[2] << 8) | (p)[3])
-        char tok[96]; tok[0] = 0;
+        char tok[288]; tok[0] = 0;
         if (sid & 0x80000000u) snprintf(tok, sizeof(tok), "F%u.%u.R%u.%u", t, fl, sid & 0x7fffffffu, l);
         else if (blk_open && t != H2_FTYPE_CONTINUATION) snprintf(tok, sizeof(tok), "F%u.%u.%u.%u.in-header-block", t, fl, sid, l);
         else if (t == H2_FTYPE_SETTINGS && (fl & H2_FLAG_ACK) && 0 == l && 0 == sid) snprintf(tok, sizeof(tok), "SA");
-        else if (t == H2_FTYPE_PING && (fl & H2_FLAG_ACK) && 8 == l && 0 == sid) snprintf(tok, sizeof(tok), "PA");
+        else if (t == H2_FTYPE_PING && (fl & H2_FLAG_ACK) && 8 == l && 0 == sid)
+            snprintf(tok, sizeof(tok), "PA%02x%02x%02x%02x%02x%02x%02x%02x", pl[0], pl[1], pl[2], pl[3], pl[4], pl[5], pl[6], pl[7]);
         else if (t == H2_FTYPE_GOAWAY && l >= 8 && 0 == sid) snprintf(tok, sizeof(tok), "G%u,%u", U32(pl) & 0x7fffffffu, U32(pl+4));
         else if (t == H2_FTYPE_RST_STREAM && 4 == l && sid) snprintf(tok, sizeof(tok), "R%u,%u", sid, U32(pl));
         else if (t == H2_FTYPE_WINDOW_UPDATE && 4 == l && (U32(pl) & 0x7fffffffu)) snprintf(tok, sizeof(tok), "W%u,%u", sid, U32(pl) & 0x7fffffffu);
@@ -416,14 +451,17 @@ static void print_step(int first) {
         else if (t == H2_FTYPE_HEADERS && sid && !(fl & ~(unsigned)(H2_FLAG_END_STREAM|H2_FLAG_END_HEADERS))) {
             buffer_copy_string_len(blk, (const char *)pl, l);
             blk_sid = sid; blk_es = (fl & H2_FLAG_END_STREAM) ? 1 : 0; blk_open = !(fl & H2_FLAG_END_HEADERS);
-            if (!blk_open) snprintf(tok, sizeof(tok), "H%u,%d,%d", sid,
-                                    block_status((unsigned char *)blk->ptr, (unsigned char *)blk->ptr + buffer_clen(blk)), blk_es);
+            snprintf(blk_sizes, sizeof(blk_sizes), "%u", l);
+            /*(payload sizes of the HEADERS / CONTINUATION frames of the block behind ':')*/
+            if (!blk_open) snprintf(tok, sizeof(tok), "H%u,%d,%d:%s", sid,
+                                    block_status((unsigned char *)blk->ptr, (unsigned char *)blk->ptr + buffer_clen(blk)), blk_es, blk_sizes);
         }
         else if (t == H2_FTYPE_CONTINUATION && blk_open && sid == blk_sid && !(fl & ~(unsigned)H2_FLAG_END_HEADERS)) {
             buffer_append_string_len(blk, (const char *)pl, l);
             blk_open = !(fl & H2_FLAG_END_HEADERS);
-            if (!blk_open) snprintf(tok, sizeof(tok), "H%u,%d,%d", sid,
-                                    block_status((unsigned char *)blk->ptr, (unsigned char *)blk->ptr + buffer_clen(blk)), blk_es);
+            { const size_t k = strlen(blk_sizes); if (k + 12 < sizeof(blk_sizes)) snprintf(blk_sizes + k, sizeof(blk_sizes) - k, "+%u", l); }
+            if (!blk_open) snprintf(tok, sizeof(tok), "H%u,%d,%d:%s", sid,
+                                    block_status((unsigned char *)blk->ptr, (unsigned char *)blk->ptr + buffer_clen(blk)), blk_es, blk_sizes);
         }
         else snprintf(tok, sizeof(tok), "F%u.%u.%u.%u", t, fl, sid, l);
         if (tok[0]) { if (n++) fputc(' ', stdout); fputs(tok, stdout); }
